@@ -34,6 +34,16 @@ Proof.
   - reflexivity.
 Qed.
 
+Lemma first_segment_agree : forall (en1 en2 : node -> result item) ns,
+  (forall n, In n ns -> fuelled (en1 n) -> en2 n = en1 n) ->
+  fuelled (first_segment en1 ns) -> first_segment en2 ns = first_segment en1 ns.
+Proof.
+  intros en1 en2 ns Ha Hf. destruct ns as [|n0 ns]; [reflexivity|].
+  assert (H0 : fuelled (en1 n0) -> en2 n0 = en1 n0) by (apply Ha; left; reflexivity).
+  destruct n0; simpl in *; try reflexivity;
+    (rewrite H0; [reflexivity|intro E; apply Hf; rewrite E; reflexivity]).
+Qed.
+
 Lemma expand_with_agree : forall (en1 en2 : bool -> node -> result item) rm p,
   (forall b n, In n (p_nodes p) -> fuelled (en1 b n) -> en2 b n = en1 b n) ->
   fuelled (expand_with en1 rm p) ->
@@ -47,13 +57,11 @@ Proof.
     - intros n Hin Hn. apply Ha; auto.
     - intro E. apply Hk. rewrite E. reflexivity. }
   destruct (p_root p) as [r|].
-  - destruct (p_nodes p) as [|n0 ns] eqn:En; [reflexivity|].
-    assert (H0 : fuelled (en1 false n0)).
-    { intro E. apply Hf. rewrite E. reflexivity. }
-    rewrite (Ha false n0 (or_introl eq_refl) H0).
-    destruct (en1 false n0) as [i|t]; [|reflexivity]. simpl in *.
-    destruct (item_str i) as [fs|t]; [|reflexivity]. simpl in *.
-    rewrite (Hch _ Hf). reflexivity.
+  - assert (Hfs : first_segment (en2 false) (p_nodes p) = first_segment (en1 false) (p_nodes p)).
+    { apply first_segment_agree; [intros; apply Ha; auto|].
+      intro E. apply Hf. rewrite E. reflexivity. }
+    rewrite Hfs. destruct (first_segment (en1 false) (p_nodes p)) as [fs|t]; [|reflexivity].
+    simpl in *. rewrite (Hch _ Hf). reflexivity.
   - simpl in *. rewrite (Hch _ Hf). reflexivity.
 Qed.
 
@@ -150,21 +158,28 @@ Proof.
   destruct (join_items l); simpl; [discriminate|exact IH].
 Qed.
 
+Lemma first_segment_fuelled : forall (en : node -> result item) ns,
+  (forall n, In n ns -> fuelled (en n)) -> fuelled (first_segment en ns).
+Proof.
+  intros en ns H. destruct ns as [|n0 ns]; [discriminate|].
+  pose proof (H n0 (or_introl eq_refl)) as H0.
+  destruct n0; simpl; try discriminate;
+    (match goal with |- fuelled (bind ?r _) => destruct r as [[s0|]|t] end; simpl; try discriminate;
+     eapply fuelled_cast; eauto).
+Qed.
+
 Lemma expand_with_fuelled : forall (en : bool -> node -> result item) rm p,
   (forall b n, In n (p_nodes p) -> fuelled (en b n)) -> fuelled (expand_with en rm p).
 Proof.
   intros en rm p H. unfold expand_with.
   assert (Hroot : fuelled (match p_root p with
     | None => Ok []
-    | Some r => match p_nodes p with
-                | [] => Raise IndexError
-                | n0 :: _ => do i <- en false n0; do first_seg <- item_str i;
-                             Ok (if starts_with [c_slash] first_seg then [] else r)
-                end
+    | Some r => do first_seg <- first_segment (en false) (p_nodes p);
+                Ok (if starts_with [c_slash] first_seg then [] else r)
     end)).
-  { destruct (p_root p); [|discriminate]. destruct (p_nodes p) as [|n0 ns] eqn:En; [discriminate|].
-    pose proof (H false n0 (or_introl eq_refl)) as H0.
-    destruct (en false n0) as [[s0|]|t]; simpl; try discriminate. eapply fuelled_cast; eauto. }
+  { destruct (p_root p); [|discriminate].
+    pose proof (first_segment_fuelled (en false) (p_nodes p) (fun n Hn => H false n Hn)) as H0.
+    destruct (first_segment (en false) (p_nodes p)); simpl; [discriminate|eapply fuelled_cast; eauto]. }
   match goal with |- fuelled (bind ?r _) => destruct r as [root|t]; [|exact Hroot] end.
   simpl.
   pose proof (expand_children_fuelled (en true) rm (p_nodes p) (fun n Hn => H true n Hn)) as Hc.
